@@ -888,6 +888,7 @@ func checkC12(w *World, r *Report) {
 	ruleSuccessorSwap(w, r, "C12", fi)
 	ruleAddPushesOrParks(w, r, "C12")
 	checkGetterFinalityTable(w, r, "C12")
+	ruleStateAgrees(w, r, "C12")
 }
 
 // checkGetterFinalityTable: Bar.wSyncTable replies the bar state's table on both arms.
